@@ -709,7 +709,9 @@ impl Gen {
             17 => Value::ChronoDate(Some(Box::new(gen_date(r)))),
             18 => Value::Uuid(Some(Box::new(uuid::Uuid::from_u128(((r.next() as u128) << 64) | r.next() as u128)))),
             19 => Value::Decimal(Some(Box::new(rust_decimal::Decimal::new(r.below(100000) as i64 - 50000, r.below(4) as u32)))),
-            20 => Value::Json(Some(Box::new(serde_json::json!({"k": r.below(10), "s": "it's"})))),
+            // JSON documents of every shape: an object, an array, and the scalars (a top-level string is still a JSON document: "text")
+            20 => Value::Json(Some(Box::new(match r.below(7) { 0 => serde_json::json!("hello"), 1 => serde_json::json!("12"), 2 => serde_json::json!(12), 3 => serde_json::json!(null), 4 => serde_json::json!(true),
+                5 => serde_json::json!(["a", 1, null]), _ => serde_json::json!({"k": r.below(10), "s": "it's"}) }))),
             21 => Value::Unsigned(Some(r.next() as u32)), 22 => Value::SmallInt(Some(r.next() as i16)),
             23 => Value::ChronoTime(Some(Box::new(gen_time(r)))),
             24 => Value::ChronoDateTime(Some(Box::new(gen_date(r).and_time(gen_time(r))))),
